@@ -400,8 +400,9 @@ static std::string forked(const std::function<std::string()> &f, std::string &te
 
 static void detCase(ChildOut &co, const std::string &id, vh::Rng &g, bool thoroughTier) {
   vc::GenOpts o;
-  o.maxCells = g.chance(1, 3) ? 30 : 15;
-  o.maxRows = g.chance(1, 3) ? 10 : 6;
+  int sizeClass = g.range(0, 11);  // 1/12 larger circuits, 1/3 medium, the rest small
+  o.maxCells = sizeClass == 0 ? 80 : sizeClass < 5 ? 30 : 15;
+  o.maxRows = sizeClass == 0 ? 14 : g.chance(1, 3) ? 10 : 6;
   vc::GenInfo gi;
   Circuit c = vc::genCircuit(g, o, &gi);
   Circuit other = vc::genCircuit(g, o, nullptr);
@@ -528,8 +529,9 @@ struct HJob {
 static void orderCase(ChildOut &co, const std::string &id, vh::Rng &g, bool thoroughTier) {
   (void)thoroughTier;
   vc::GenOpts o;
-  o.maxCells = g.chance(1, 3) ? 30 : 15;
-  o.maxRows = g.chance(1, 3) ? 10 : 6;
+  int sizeClass = g.range(0, 11);  // 1/12 larger circuits, 1/3 medium, the rest small
+  o.maxCells = sizeClass == 0 ? 80 : sizeClass < 5 ? 30 : 15;
+  o.maxRows = sizeClass == 0 ? 14 : g.chance(1, 3) ? 10 : 6;
   int n = g.chance(1, 4) ? 3 : 2;
   bool sameCircuit = g.chance(1, 2);
   // which part of the flow the jobs exercise: global placement (+ legalization, detailed) or the detailed side only
